@@ -19,6 +19,24 @@ def _lc(db, key):
   return out
 
 
+def _loop_bounded(lc, t, cap) -> bool:
+  """t == base + j with j a `for j in range(min(.., cap - base))` loop variable: base + j < cap by the loop bound."""
+  from ..terms import alternatives, same_affine
+
+  if not (isinstance(t, T) and t.op == "bin" and t.args[0] == "+"):
+    return False
+  for base, j in ((t.args[1], t.args[2]), (t.args[2], t.args[1])):
+    if not (isinstance(j, T) and j.op == "lv"):
+      continue
+    info = lc.keval.loops.get(j.args[0])
+    if not info or info.get("kind") != "for":
+      continue
+    for hi in alternatives(info["hi"]):
+      if isinstance(hi, T) and hi.op == "call" and hi.args[0] in ("wp.min", "min") and any(same_affine(x, T("bin", "-", cap, base)) for x in hi.args[1:] if isinstance(x, T)):
+        return True
+  return False
+
+
 def _check_not_saturated(res, lc, counter_names, cap_name):
   import ast
 
@@ -86,7 +104,8 @@ def check_compaction(db, res):
     res.ob(bool(ws), f"compact|{root}|written", Finding("R-CAP.1", f"island._compact_dofs|{root}|missing", f"{root} is not written", lc.ev.loc))
     for a in ws:
       guards = [t for t, pol in pc_literals(a.pc) if pol and t.op == "cmp" and t.args[0] == "<" and t.args[2] is nv]
-      g_ok = bool(guards) and (root != "cdof_dof_out" or any(g.args[1] is a.idx[1] for g in guards)) and (root != "dof_cdof_out" or any(g.args[1] is a.value for g in guards))
+      bounded = a.idx[1] if root == "cdof_dof_out" else a.value  # the compact index that must stay below nvmax
+      g_ok = (bool(guards) and any(g.args[1] is bounded for g in guards)) or _loop_bounded(lc, bounded, nv)
       res.ob(g_ok, f"compact|{root}|guard", Finding("R-CAP.1", f"island._compact_dofs|{root}|unguarded", f"`{root}` is written without the guard `count < nvmax` on the compact index (`{show(a.idx[1])}` / `{show(a.value)}`)", a.loc), sample={"array": root, "guard": [show(g) for g in guards]})
   ovf = [a for a in acc if a.is_write and lc.field(a.root) is not None and lc.field(a.root).flat == "overflow"]
   ok_ovf = False
